@@ -21,7 +21,9 @@ import (
 // Rng is splitmix64; every generator derives from one seed (VERIF_SEED).
 type Rng struct{ s uint64 }
 
-func NewRng(seed uint64) *Rng { return &Rng{s: seed*0x9E3779B97F4A7C15 + 0x1234567} }
+// NewRng runs the seed through the splitmix finaliser first: without it seed+1 would be seed's stream
+// shifted by one draw.
+func NewRng(seed uint64) *Rng { return (&Rng{s: seed*0x9E3779B97F4A7C15 + 0x1234567}).Fork() }
 
 func (r *Rng) U64() uint64 {
 	r.s += 0x9E3779B97F4A7C15
